@@ -322,6 +322,8 @@ def correspond(ctx, model):
             case = pg.structured(rng, fam) if k < ns else pg.boundary(rng, fam)
             i += 1
             check_case(ctx, model, case, run_oracle=(i % every == 0))
+            if fam in pc.CONVEX and i % 3 == 0:
+                firm_pair(ctx, rng, case)
             if len(ctx.violations) >= 5:
                 return
     # 2b. exhaustive small scope for the coordinate-wise maps: EVERY point of the dyadic grid {-2.5, -2.375, .., 2.5} for every lam / delta
@@ -340,6 +342,11 @@ def correspond(ctx, model):
             attr_update_case(ctx, model, rng, fam)
             if len(ctx.violations) >= 5:
                 return
+    # 2d. SquaredL2Loss.prox with a general linear operator (conjugate gradient): the documented system, C02_sqL2loss_cg_bound
+    for _ in range(ctx.n(16, 120)):
+        cg_case(ctx, model, rng)
+        if len(ctx.violations) >= 5:
+            return
     # 3. which constructions advertise a prox / are rejected (exhaustive over the small configuration space)
     guard_cases(ctx, model)
     reject_cases(ctx, model)
@@ -489,6 +496,102 @@ def attr_update_case(ctx, model, rng, fam):
         ctx.disagree(f"prox.{fam}.attr-update.new-signature", dict(_public(new), old_params=case["params"], attr=what),
                      pc._js(p_new_sig), pc._js(p_model), oracle=lambda c: orc(c, p_new_sig),
                      note=f"prox after assigning {what} on the same object (float32 input: signature not seen before)")
+
+
+def firm_pair(ctx, rng, case):
+    """C02_prox_firm on the implementation: a second input `w` of the same layout (half of the time a small perturbation of `v`,
+    where a branch switch between the two points is likely), `‖p - q‖² ≤ ⟨p - q, v - w⟩`"""
+    c1 = {k: val for k, val in case.items() if not k.startswith("_")}
+    c1["dtype"] = "float64"
+    m = pc.case_size(c1)
+    c2 = dict(c1)
+    near = bool(rng.random() < 0.5)
+    v = np.asarray(c1["v"], dtype=np.float64)
+    c2["v"] = (v + pg.dy(rng, m, 0.25, zeros=0.5) if near else pg.dy(rng, m)).tolist()
+    if c1.get("cplx"):
+        vi = np.asarray(c1["vim"], dtype=np.float64)
+        c2["vim"] = (vi + pg.dy(rng, m, 0.25, zeros=0.5) if near else pg.dy(rng, m)).tolist()
+    if c1["fam"] == "nonneg":
+        pass
+    with warnings.catch_warnings():
+        warnings.simplefilter("ignore")
+        r = pc.firm_oracle(c1, c2)
+    ctx.count("firm-pairs:" + ("near" if near else "far"))
+    if r is not None:
+        ctx.violation({"kind": "failing-input", "op": f"prox.{c1['fam']}.firm", "case": _public(c1), "second_input": _public(c2), "failing": r},
+                      True, f"prox.{c1['fam']}: firm non-expansiveness fails on the implementation")
+
+
+def cg_case(ctx, model, rng):
+    """`SquaredL2Loss(y, A=MatrixOperator, W, scale).prox(v, lam)` (cg on `(I + 2 lam scale AᵀWA) x = v + 2 lam scale AᵀW y`):
+    the residual of the DOCUMENTED system at the returned point, computed by the model (`sqL2LossSysResidual`), must be at the level
+    of the cg tolerance, and the conclusion of C02_sqL2loss_cg_bound (`‖x - p‖ ≤ ‖residual(x)‖`, p = exact solution) must hold."""
+    import scico.numpy as snp
+    from scico import linop, loss
+
+    m, n = int(rng.integers(1, 6)), int(rng.integers(1, 6))
+    A = common.dyadic(rng, (m, n), bits=5, scale=2.0)
+    if rng.random() < 0.2:
+        A[:, int(rng.integers(0, n))] = 0.0  # rank-deficient: the system stays well posed (matrix ⪰ I)
+    y, v = pg.dy(rng, m), pg.dy(rng, n)
+    w = np.abs(pg.dy(rng, m, 3.0, zeros=0.25)) if rng.random() < 0.6 else None
+    lam = pg.pick(rng, pg.LAMS)
+    P = {"scale": pg.pick(rng, pg.SCALES), "rescale": pg.rescale_ops(rng)}
+    kw = pg.pick(rng, [None, None, {"tol": 1e-9}, {"tol": 1e-7, "maxiter": 50}, {"maxiter": 3}])
+    x0 = pg.dy(rng, n) if rng.random() < 0.3 else None
+    desc = {"fam": "sql2loss-cg", "m": m, "n": n, "A": A.tolist(), "y": y.tolist(), "v": v.tolist(), "w": None if w is None else w.tolist(),
+            "lam": lam, "params": P, "prox_kwargs": kw, "x0": None if x0 is None else x0.tolist()}
+    with warnings.catch_warnings():
+        warnings.simplefilter("ignore")
+        try:
+            L = loss.SquaredL2Loss(y=snp.array(y), A=linop.MatrixOperator(snp.array(A)), scale=float(P["scale"]),
+                                   W=None if w is None else linop.Diagonal(snp.array(w)), prox_kwargs=kw)
+            L = pc.apply_rescale(L, P["rescale"])
+            x = np.asarray(L.prox(snp.array(v), lam, **({"x0": snp.array(x0)} if x0 is not None else {})), dtype=np.float64)
+        except Exception as e:  # noqa: BLE001
+            if not _raised_in_scico(e):
+                raise
+            ctx.violation({"kind": "failing-input", "op": "prox.sql2loss.cg", "case": desc,
+                           "failing": {"reason": "SquaredL2Loss.prox raised for a linear operator", "exception": f"{type(e).__name__}: {str(e)[:300]}"}},
+                          True, "prox.sql2loss.cg: implementation raised")
+            return
+        Fx = lam * float(L(snp.array(x))) + 0.5 * float(np.sum((x - v) ** 2))
+    sc = pc.eff_scale(model, P)
+    ww = np.ones(m) if w is None else w
+    r_model = np.asarray(common.b2fs(model.call("sql2loss_sys", m=m, n=n, a=common.fs2b(A.ravel()), w=common.fs2b(ww), y=common.fs2b(y),
+                                                v=common.fs2b(v), x=common.fs2b(x), lam=common.f2b(lam), scale=common.f2b(sc))["out"]))
+    c = 2.0 * sc * lam
+    Msys = np.eye(n) + c * A.T @ (ww[:, None] * A)
+    b = v + c * A.T @ (ww * y)
+    p = np.linalg.solve(Msys, b)
+    r_np = Msys @ x - b
+    tol = float((kw or {}).get("tol", 1e-5))
+    capped = (kw or {}).get("maxiter", 100) < n  # cg may stop before convergence: only the bound of the theorem applies
+    ctx.count("cg:" + ("capped-maxiter" if capped else f"tol={tol:g}") + (":x0" if x0 is not None else "") + (":W" if w is not None else ""))
+    ctx.case({k: desc[k] for k in ("fam", "m", "n", "lam", "params", "prox_kwargs")}, "cg-" + hashlib.sha1(json.dumps(desc, sort_keys=True).encode()).hexdigest()[:16])
+
+    def orc(_c):
+        with warnings.catch_warnings():
+            warnings.simplefilter("ignore")
+            Fp = lam * float(L(snp.array(p))) + 0.5 * float(np.sum((p - v) ** 2))
+        if Fp < Fx - 1e-7 * (1.0 + abs(Fx)):
+            return {"reason": "the solution of the documented system has a lower objective than the point returned by prox (cg path)",
+                    "v": v.tolist(), "lam": lam, "p": x.tolist(), "objective(p)": Fx, "better_x": p.tolist(), "objective(x)": Fp}
+        return None
+
+    if not common.allclose(r_model, r_np, k=max(m * n, 1), rtol=1e-9):
+        ctx.disagree("prox.sql2loss.cg.system", desc, r_np.tolist(), r_model.tolist(), oracle=orc,
+                     note="model residual of the documented system differs from the numpy evaluation (harness/model bug or scale history)")
+        return
+    rn, en, bn = float(np.linalg.norm(r_model)), float(np.linalg.norm(x - p)), float(np.linalg.norm(b))
+    # conclusion of C02_sqL2loss_cg_bound on the real output
+    if en > rn * (1 + 1e-6) + 1e-12 * (1 + bn):
+        raise common.Infra(f"cg bound violated numerically: |x-p|={en} > |res|={rn}")
+    if not capped and rn > 100.0 * tol * bn + 1e-12:
+        ctx.count("disagree:sql2loss-cg")
+        ctx.disagree("prox.sql2loss.cg.residual", dict(desc, x=x.tolist()), {"residual_norm": rn, "rhs_norm": bn, "tol": tol},
+                     "residual of the documented system <= 100*tol*|rhs|", oracle=orc,
+                     note="the point returned by the cg path does not solve (I + 2 lam scale A^T W A) x = v + 2 lam scale A^T W y")
 
 
 def grid_cases():
